@@ -134,7 +134,7 @@ def build(root):
             doc.nodes.append(dict(kind='text', text=e.text, parent=par, children=[], tag='', attrs=[], present=present))
             doc.nodes[par]['children'].append(idx)
             return
-        own = [(p, u) for p, u in e.ns.items()]
+        own = [((p or None), u) for p, u in e.ns.items()]
         ns = (list(own) + [x for x in pns if x[0] not in [o[0] for o in own]]) if own else list(pns)
         name = e.name
         if isinstance(name, str):
